@@ -74,6 +74,7 @@ type opJ struct {
 	Hi   int      `json:"hi,omitempty"`
 	Nb   string   `json:"nb,omitempty"` // restore: neighbour script: "" | needs | free | err | slow-needs | slow-free | slow-err | live:<db>
 	N    int      `json:"n,omitempty"`  // drain: maximum number of steps (0 = all)
+	Srcs []int    `json:"srcs,omitempty"` // restore: the databases whose handles of checkpoint id are restored together (composite)
 	Fail int      `json:"fail,omitempty"` // retain / step: storage fault during this operation: 1 = the Save (checkpoints file / WAL / first table of the flush) fails, 2 = a WAL delete of Save's Destroy fails
 }
 
@@ -114,6 +115,11 @@ type arrival struct {
 	gate chan struct{}
 }
 
+type hkey struct {
+	id   uint64
+	slot int
+}
+
 type handleRec struct {
 	id   uint64
 	uri  string
@@ -140,7 +146,7 @@ type world struct {
 	grave    *storage.MemoryFilesystem
 	log      *fsLog
 	slots    []*slot
-	handles  map[uint64]*handleRec
+	handles  map[hkey]*handleRec
 	flushQ   []*task
 	compQ    []*task
 	actFlush *task
@@ -321,6 +327,41 @@ func (w *world) release(t *task, fail int) (handle *recovery.CheckpointHandle, e
 	case "ckpt":
 		switch t.point {
 		case "walsave":
+			if fail >= 10 {
+				// the (fail-10)-th Write on the WAL file fails; when the WAL has fewer segments the fault is not delivered
+				t.slot.fs.failWrite.Store(int64(fail-10) + 1)
+				close(g)
+				wait := t.slot.waits[t.id]
+				fired := false
+				select {
+				case <-t.slot.fs.fired:
+					fired = true
+				case a := <-w.arrivals:
+					// not delivered: the task went on to the list save
+					w.arrivals <- a
+				}
+				if fired {
+					// correct code: Save returns the write error, the task ends. If the error is swallowed the task goes on to the list save.
+					resCh := make(chan error, 1)
+					go func() { _, e := wait(); resCh <- e }()
+					select {
+					case <-resCh:
+						delete(t.slot.waits, t.id)
+						delete(t.slot.ckpts, t.id)
+						t.slot.fs.disarm()
+						return nil, errFaultDelivered
+					case a := <-w.arrivals:
+						w.arrivals <- a
+						t.slot.fs.disarm()
+						if err := w.expect(1); err != nil {
+							return nil, err
+						}
+						return nil, errWriteErrorLost
+					}
+				}
+				t.slot.fs.disarm()
+				return nil, w.expect(1)
+			}
 			if fail == 1 {
 				t.slot.fs.armSave("wal")
 				close(g)
@@ -476,6 +517,9 @@ func (s *slot) undeploy() {
 	}
 }
 
+var errFaultDelivered = errors.New("fault delivered")
+var errWriteErrorLost = errors.New("write error lost")
+
 func rpcNeedsTable(remote *operator.Operator, uri string) (needed bool, err error) {
 	defer func() {
 		if r := recover(); r != nil {
@@ -560,6 +604,7 @@ type ckptDocJ struct {
 
 type handleObs struct {
 	ID      uint64
+	Dir     int
 	Present bool
 	Wal     []fname
 	After   uint64
@@ -569,15 +614,21 @@ type handleObs struct {
 }
 
 func (w *world) observeHandles() []handleObs {
-	ids := []uint64{}
-	for id := range w.handles {
-		ids = append(ids, id)
+	keys := []hkey{}
+	for k := range w.handles {
+		keys = append(keys, k)
 	}
-	sort.Slice(ids, func(a, b int) bool { return ids[a] < ids[b] })
+	sort.Slice(keys, func(a, b int) bool {
+		if keys[a].id != keys[b].id {
+			return keys[a].id < keys[b].id
+		}
+		return w.slots[keys[a].slot].dir < w.slots[keys[b].slot].dir
+	})
 	var out []handleObs
-	for _, id := range ids {
-		h := w.handles[id]
-		ho := handleObs{ID: id}
+	for _, k := range keys {
+		h := w.handles[k]
+		id := k.id
+		ho := handleObs{ID: id, Dir: w.slots[k.slot].dir}
 		data, err := io.ReadAll(&storage.Cursor{File: w.root.Open(h.uri)})
 		if err == nil {
 			var doc struct {
@@ -618,7 +669,7 @@ func (w *world) observeHandles() []handleObs {
 }
 
 func (h handleObs) coq() string {
-	return fmt.Sprintf("mkHObs %d %s %s %d %d %s %s", h.ID, hx.CoqBool(h.Present), coqNames(h.Wal), h.After, h.LastSeq, coqNames(h.Tables), coqNames(h.Missing))
+	return fmt.Sprintf("mkHObs %d %d %s %s %d %d %s %s", h.ID, h.Dir, hx.CoqBool(h.Present), coqNames(h.Wal), h.After, h.LastSeq, coqNames(h.Tables), coqNames(h.Missing))
 }
 
 type liveObs struct {
@@ -844,6 +895,9 @@ func (r *runner) stepTask(s *slot, t *task, silent bool, fail int) error {
 	w := r.w
 	switch t.kind {
 	case "flush":
+		if t.point == "swap" && w.actComp != nil && w.actComp.slot == s && w.actComp.point == "swap" {
+			r.tag("flush-swaps-while-compaction-holds-a-change-set")
+		}
 		failing := fail == 1 && t.point == "begin" && s.db.VerifMemtableCount() > 1
 		f := 0
 		if failing {
@@ -943,16 +997,32 @@ func (r *runner) stepTask(s *slot, t *task, silent bool, fail int) error {
 	case "ckpt":
 		id := t.id
 		f := fail
-		if t.point == "walsave" && f != 1 {
+		if t.point == "walsave" && f != 1 && f < 10 {
+			f = 0
+		}
+		if t.point != "walsave" && f >= 10 {
 			f = 0
 		}
 		h, err := w.release(t, f)
+		if f >= 10 {
+			switch err {
+			case errFaultDelivered, errWriteErrorLost:
+				// a write error on a WAL segment: the model expects the WAL save to fail
+				if err == errWriteErrorLost {
+					r.tag("fault-wal-write-error-swallowed")
+				}
+				f, err = 1, nil
+				r.tag("fault-wal-write")
+			case nil:
+				f = 0 // the WAL has fewer segments than the chosen index: no fault was delivered
+			}
+		}
 		if err != nil {
 			return err
 		}
 		w.log.take()
 		if h != nil && !silent {
-			w.handles[id] = &handleRec{id: id, uri: h.URI, slot: s.idx}
+			w.handles[hkey{id, s.idx}] = &handleRec{id: id, uri: h.URI, slot: s.idx}
 		}
 		if !silent {
 			if f != 0 {
@@ -1058,10 +1128,38 @@ func (r *runner) opts(s *slot, own kv.DataOwnership) dkv.DBOptions {
 
 func (r *runner) restore(o opJ) error {
 	w := r.w
-	h := w.handles[o.ID]
-	if h == nil || len(w.slots) >= 6 {
+	if len(w.slots) >= 7 {
 		return nil
 	}
+	var hs []*handleRec
+	composite := false
+	if len(o.Srcs) > 0 {
+		composite = true
+		for _, sl := range o.Srcs {
+			h := w.handles[hkey{o.ID, sl}]
+			if h == nil || w.slots[sl].state == "live" {
+				return nil
+			}
+			hs = append(hs, h)
+		}
+	} else {
+		var slots []int
+		for k := range w.handles {
+			if k.id == o.ID {
+				slots = append(slots, k.slot)
+			}
+		}
+		if len(slots) == 0 {
+			return nil
+		}
+		sort.Ints(slots)
+		hs = []*handleRec{w.handles[hkey{o.ID, slots[0]}]}
+		composite = len(slots) > 1
+	}
+	if composite {
+		o.Same = false
+	}
+	h := hs[0]
 	if err := r.drainOthers(nil); err != nil {
 		return err
 	}
@@ -1088,7 +1186,11 @@ func (r *runner) restore(o opJ) error {
 		s.nb = &neighbour{w: w, owner: s, script: o.Nb}
 		var nbs []operator.VerifNeighbor
 		if o.Nb != "" {
-			nbs = append(nbs, operator.VerifNeighbor{KeyGroupRange: partitioning.KeyGroupRange{Start: 0, End: 65536}, Operator: s.nb})
+			// the other operators of the assembly hold the complement of this key-group range
+			if o.Lo > 0 {
+				nbs = append(nbs, operator.VerifNeighbor{KeyGroupRange: partitioning.KeyGroupRange{Start: 0, End: o.Lo}, Operator: s.nb})
+			}
+			nbs = append(nbs, operator.VerifNeighbor{KeyGroupRange: partitioning.KeyGroupRange{Start: o.Hi, End: 65536}, Operator: s.nb})
 		}
 		own = operator.VerifNewOperatorPartition(partitioning.KeyGroupRange{Start: o.Lo, End: o.Hi}, nbs)
 		ownC = fmt.Sprintf("(OwnRange %d %d)", o.Lo, o.Hi)
@@ -1108,6 +1210,17 @@ func (r *runner) restore(o opJ) error {
 			r.tag("nb-" + o.Nb[:min(len(o.Nb), 9)])
 		}
 	}
+	restoreOp := fmt.Sprintf("ORestore %d %d %s %s %s", s.idx, o.ID, hx.CoqBool(o.Same), ownC, nbC)
+	if composite {
+		dirs := make([]string, len(hs))
+		for i, x := range hs {
+			dirs[i] = fmt.Sprint(w.slots[x.slot].dir)
+		}
+		restoreOp = fmt.Sprintf("ORestoreM %d %d %s %s %s", s.idx, o.ID, hx.CoqList(dirs, "N"), ownC, nbC)
+		if len(hs) > 1 {
+			r.tag("restore-composite")
+		}
+	}
 	w.opening = s
 	var ro readObs
 	func() {
@@ -1125,7 +1238,11 @@ func (r *runner) restore(o opJ) error {
 				}
 			}
 		}()
-		s.db = dkv.Open(r.opts(s, own), []recovery.CheckpointHandle{{CheckpointID: h.id, URI: h.uri}})
+		var chs []recovery.CheckpointHandle
+		for _, x := range hs {
+			chs = append(chs, recovery.CheckpointHandle{CheckpointID: x.id, URI: x.uri})
+		}
+		s.db = dkv.Open(r.opts(s, own), chs)
 	}()
 	w.opening = nil
 	if ro.Outcome != 0 {
@@ -1136,7 +1253,7 @@ func (r *runner) restore(o opJ) error {
 		r.voidTasks(s)
 		s.db = nil
 		r.tag(fmt.Sprintf("restore-outcome-%d", ro.Outcome))
-		r.emit(stepOut{op: fmt.Sprintf("ORestore %d %d %s %s %s", s.idx, o.ID, hx.CoqBool(o.Same), ownC, nbC), read: &ro})
+		r.emit(stepOut{op: restoreOp, read: &ro})
 		return nil
 	}
 	w.slots = append(w.slots, s)
@@ -1170,7 +1287,7 @@ func (r *runner) restore(o opJ) error {
 	if h.slot != 0 {
 		r.tag("restore-chain")
 	}
-	r.emit(stepOut{op: fmt.Sprintf("ORestore %d %d %s %s %s", s.idx, o.ID, hx.CoqBool(o.Same), ownC, nbC), read: &ro})
+	r.emit(stepOut{op: restoreOp, read: &ro})
 	if s.state == "live" && (src.state == "live" || ro.Outcome != 0) {
 		// the database that created the tables lives on: the restored object is only a probe of the handle (two objects that
 		// both believe they own the same created tables is not a deployment the properties talk about)
@@ -1307,7 +1424,7 @@ func execute(c *hx.Case) (*hx.Result, error) {
 		return def
 	}
 	slog.SetDefault(discardLogger())
-	w := &world{root: storage.NewMemoryFilesystem(), grave: storage.NewMemoryFilesystem(), log: &fsLog{}, handles: map[uint64]*handleRec{}, arrivals: make(chan *arrival, 64),
+	w := &world{root: storage.NewMemoryFilesystem(), grave: storage.NewMemoryFilesystem(), log: &fsLog{}, handles: map[hkey]*handleRec{}, arrivals: make(chan *arrival, 64),
 		memSize: uint64(pi("mem", 60)), walSize: uint64(pi("wal", 1000)), tfs: uint64(pi("tfs", 80)), universe: map[string][]byte{},
 		nbWait: make(chan *nbCall, 16), nextDir: 1, closed: make(chan struct{})}
 	verifhook.SetTuning("dkv", dkv.VerifDBTuning{L0TableNumCompactionTrigger: pi("l0", 2), MaxSizeAmplificationPercent: pi("amp", 50),
@@ -1318,7 +1435,7 @@ func execute(c *hx.Case) (*hx.Result, error) {
 	s0 := r.newSlot(0)
 	s0.db = dkv.Open(r.opts(s0, nil), nil)
 	w.slots = append(w.slots, s0)
-	usedIDs := map[uint64]bool{}
+	usedIDs := map[hkey]bool{}
 	fail := func(e error) (*hx.Result, error) {
 		r.cleanup()
 		return nil, e
@@ -1335,7 +1452,7 @@ func execute(c *hx.Case) (*hx.Result, error) {
 			}
 		case "ckpt":
 			s := r.slot(o.DB)
-			if s == nil || o.ID == 0 || usedIDs[o.ID] {
+			if s == nil || o.ID == 0 || usedIDs[hkey{o.ID, s.idx}] || s.ids[o.ID] {
 				continue
 			}
 			if err := r.drainOthers(s); err != nil {
@@ -1344,7 +1461,7 @@ func execute(c *hx.Case) (*hx.Result, error) {
 			if s.state != "live" {
 				continue
 			}
-			usedIDs[o.ID] = true
+			usedIDs[hkey{o.ID, s.idx}] = true
 			if r.busy() {
 				r.ckptBusy[o.ID] = true
 				r.tag("ckpt-while-task-parked")
@@ -1504,6 +1621,20 @@ func execute(c *hx.Case) (*hx.Result, error) {
 			if err := r.restore(o); err != nil {
 				return fail(err)
 			}
+		case "open":
+			if len(w.slots) >= 7 {
+				continue
+			}
+			if err := r.drainOthers(nil); err != nil {
+				return fail(err)
+			}
+			s := r.newSlot(w.nextDir)
+			w.nextDir++
+			s.lo, s.hi = o.Lo, o.Hi // only a write filter: the operator of this database writes keys of its key groups
+			s.db = dkv.Open(r.opts(s, nil), nil)
+			w.slots = append(w.slots, s)
+			r.tag("open-further-source")
+			r.emit(stepOut{op: fmt.Sprintf("OOpen %d", s.idx)})
 		case "crash":
 			s := r.slot(o.DB)
 			if s == nil {
